@@ -478,6 +478,14 @@ func TestC05(t *testing.T) {
 		leg("ample", "1000000000001", "2000000000001", "x", 3, "999999999999")}})
 	run(c05Case{Fund: "1000000000000", RBal: "0", Txs: []c05Tx{leg("ample", base, "1000000000000", "x", 4, "0"), leg("ample", base, "1000000000000", "x", 5, "0"),
 		{Ty: 2, GasMode: "ample", Gp: "0", Tip: "300000000007", Cap: "1300000000006", Value: "5000000000999", Target: "create", W: "0"}}})
+	// … prices below the base fee for each of the three tx types (charged and refunded at the base fee)
+	run(c05Case{Fund: "1000000000000", RBal: "0", Txs: []c05Tx{
+		{Ty: 1, GasMode: "plus", GasAdd: 79000, Gp: "0", Tip: "0", Cap: "0", Value: "0", Target: "eoa", W: "0"},
+		{Ty: 0, GasMode: "plus", GasAdd: 79000, Gp: "500000000000", Tip: "0", Cap: "0", Value: base, Target: "eoa", W: "0"},
+		{Ty: 2, GasMode: "plus", GasAdd: 79000, Gp: "0", Tip: "0", Cap: "0", Value: "0", Target: "eoa", W: "0"}}})
+	run(c05Case{Fund: "1000000000000", RBal: "0", Txs: []c05Tx{
+		{Ty: 1, GasMode: "ample", Gp: "999999999999", Tip: "0", Cap: "0", Value: "2000000000001", Target: "x", Mode: 0, W: "0"},
+		{Ty: 2, GasMode: "ample", Gp: "0", Tip: "1", Cap: "999999999999", Value: "0", Target: "x", Mode: 1, W: "0"}}})
 	rng := NewRng(cfg.Seed)
 	for i := 0; i < cfg.N; i++ {
 		run(genC05Case(rng.Fork()))
